@@ -507,8 +507,8 @@ pub fn spec() -> PropSpec {
     PropSpec {
         id: "C06",
         families: vec![Family { name: "boundary-probe", f: fam_probe, weight: 55 }, Family { name: "credit-return", f: fam_credit, weight: 30 }, Family { name: "credit-return-multi", f: fam_credit_multi, weight: 15 }],
-        quick_worlds: 90_000,
-        thorough_worlds: 1_350_000,
+        quick_worlds: 180_000,
+        thorough_worlds: 2_700_000,
         panic_is_violation: true,
         rule: "boundary-probe worlds = a server with limits drawn from {0,1,2,3, values around 2^6 and 2^14, defaults}, an honest client and a client whose correctly protected 1-RTT packets are rewritten to carry one frame sequence one below, at, or one/two above an advertised limit (stream data, connection data, stream count uni/bidi, final size by RESET_STREAM, data beyond FIN, datagram size, CRYPTO buffer) at a drawn instant; credit-return worlds = honest transfers with readers that stop streams, read unordered or in small pieces, senders that reset, run-time stream-limit changes, and loss / duplication / reordering; non-trivial = a probe or fault fired; distinct = distinct abstract-event signature",
         assumptions: vec![
